@@ -113,3 +113,25 @@ func (o *poolOracle) GetHistoricalSummaries(epoch uint64) (capella.HistoricalSum
 func (o *poolOracle) GetFinalizedStateRoot() ([]byte, error) {
 	return nil, errors.New("harness oracle: no finalized state root")
 }
+
+// flakyOracle wraps a header source and can fail the next header lookup once (a time-out of the RPC).
+// Validators are long-lived in production (one per network), so their verdict on an item must not
+// depend on what they were asked before, nor on an earlier lookup having failed.
+type flakyOracle struct {
+	inner    validation.Oracle
+	failNext bool
+}
+
+func (f *flakyOracle) GetHistoricalSummaries(epoch uint64) (capella.HistoricalSummaries, error) {
+	return f.inner.GetHistoricalSummaries(epoch)
+}
+
+func (f *flakyOracle) GetBlockHeaderByHash(hash []byte) (*types.Header, error) {
+	if f.failNext {
+		f.failNext = false
+		return nil, errors.New("harness oracle: injected lookup failure")
+	}
+	return f.inner.GetBlockHeaderByHash(hash)
+}
+
+func (f *flakyOracle) GetFinalizedStateRoot() ([]byte, error) { return f.inner.GetFinalizedStateRoot() }
